@@ -592,6 +592,14 @@ class DMRGEngine(IterativeSweeps):
             E_trunc = self.env.full_contraction(i).real  # uses updated LP/RP (if calculated)
             if E0 is None:
                 E0 = E_trunc
+                # `age` was determined before the environments got updated (and possibly grown);
+                # make it consistent with the sites included in the full contraction
+                age_L, age_R = self.env.get_LP_age(i + 1), self.env.get_RP_age(i)
+                if age_L is None:
+                    age_L = self.env.get_LP_age(i) + 1
+                if age_R is None:
+                    age_R = self.env.get_RP_age(i + 1) + 1
+                age = age_L + age_R
             E_trunc = E_trunc - E0
 
         # collect statistics
